@@ -68,7 +68,8 @@ def mk(kind, me, n):
 PARAM_SHAPES = (None, {}, {"a": {"b": [1, None, " "]}, "n": None},
                 {"_meta": {"traceparent": "00-ab-01", "tenant": 7}, "x": 1},          # the caller's own _meta entries must survive
                 {"_meta": {"progressToken": "stale-token", "k": None}, "y": [None]},  # a dict reused from an earlier call
-                {"_meta": {}})
+                {"_meta": {}},
+                {"n": 2 ** 64, "deep": [{"m": -(2 ** 70)}], "f": 1e300, "z": None})    # integers of any size are given, hence written, exactly
 
 
 def gen(ctx):
